@@ -223,7 +223,11 @@ func ValidateLogConfig(cfg *configpb.LogConfig) (*ValidatedLogConfig, error) {
 		}
 		// Validate CTFEStorageConnectionString
 		if strings.HasPrefix(cfg.CtfeStorageConnectionString, "mysql") {
-			if _, err := mysql.ParseDSN(strings.Split(cfg.CtfeStorageConnectionString, "://")[1]); err != nil {
+			parts := strings.Split(cfg.CtfeStorageConnectionString, "://")
+			if len(parts) < 2 {
+				return nil, errors.New("failed to parse ctfe_storage_connection_string for mysql driver")
+			}
+			if _, err := mysql.ParseDSN(parts[1]); err != nil {
 				return nil, errors.New("failed to parse ctfe_storage_connection_string for mysql driver")
 			}
 		} else if strings.HasPrefix(cfg.CtfeStorageConnectionString, "postgres") {
